@@ -63,7 +63,11 @@ def run_execution(ctx, cfg):
     flow.sample_and_log_prob = forced_draw
     state = {"beta_seen": []}
 
+    quiet = {"on": False}
+
     def teleport(z, logp, inv):
+        if quiet["on"]:
+            return z  # the earlier call on the same sampler object: no environment deviation
         # state key: (current population, history of betas so far, iteration)
         h = smp.history
         key = (pops[-1] if pops else init, tuple(h.beta), len(h.beta))
@@ -101,6 +105,25 @@ def run_execution(ctx, cfg):
         kw["checkpoint_callback"] = lambda st: payloads.append(
             {"iteration": st["iteration"], "beta": st["meta"].get("beta"), "n_hist_beta": len(st["history"].beta)})
     try:
+        if cfg.get("prior_call"):
+            # non-initial state: the same sampler object has already completed a run (fixed 2-step schedule,
+            # quiet environment); the explored run below must behave like a first run
+            quiet["on"] = True
+            flow.ctx = None
+            pk = dict(cfg["prior_call"])
+            flow.sample_and_log_prob = forced_draw
+            rng_prior = np.random.default_rng(0)
+            if sampler == "smc":
+                smp.sample(N, rng=rng_prior, sampler_kwargs={"n_steps": 1}, **pk)
+            else:
+                smp.rng = rng_prior
+                smp.sample(N, sampler_kwargs={"nsteps": 1, "progress": False}, **pk)
+            quiet["on"] = False
+            flow.ctx = ctx
+            _kernel.CONFIG["invocations"] = 0
+            mon.n_like_points = 0
+            smp.n_likelihood_evaluations = 0
+            del payloads[:]
         if sampler == "smc":
             if beta_tol is not None:
                 # beta_tolerance is an option of SMCSampler.sample only; mirror MiniPCNSMC.sample's set-up
